@@ -51,7 +51,7 @@ func (c *Compiler) validateGroupingsWalk(m parse.Node, n parse.Node) error {
 func (c *Compiler) validateAllGroupings(m parse.Node, n parse.Node) error {
 
 	for _, g := range n.ChildrenByType(parse.NodeGrouping) {
-		group_map := make(map[string]bool)
+		group_map := make(map[parse.Node]bool)
 		if err := c.validateGrouping(m, g, group_map); err != nil {
 			return err
 		}
@@ -59,17 +59,36 @@ func (c *Compiler) validateAllGroupings(m parse.Node, n parse.Node) error {
 	return nil
 }
 
+// usesWithin returns the uses statements anywhere below n.  Nested grouping
+// definitions are not entered: they only matter when used, and are
+// validated on their own.
+func usesWithin(n parse.Node) []parse.Node {
+	var uses []parse.Node
+	for _, ch := range n.Children() {
+		switch ch.Type() {
+		case parse.NodeGrouping:
+			continue
+		case parse.NodeUses:
+			uses = append(uses, ch)
+		}
+		uses = append(uses, usesWithin(ch)...)
+	}
+	return uses
+}
+
 func (c *Compiler) validateGrouping(
 	m parse.Node,
 	g parse.Node,
-	group_map map[string]bool) error {
+	group_map map[parse.Node]bool) error {
 
-	if _, present := group_map[g.Name()]; present {
+	if _, present := group_map[g]; present {
 		return fmt.Errorf("Grouping cycle detected in: grouping %s", g.Name())
 	}
 
-	group_map[g.Name()] = true
-	for _, u := range g.ChildrenByType(parse.NodeUses) {
+	// group_map holds the groupings on the current chain of uses only
+	group_map[g] = true
+	defer delete(group_map, g)
+	for _, u := range usesWithin(g) {
 		gname := u.ArgIdRef()
 		mod, err := u.GetModuleByPrefix(
 			gname.Space, c.modules, c.skipUnknown)
@@ -83,7 +102,7 @@ func (c *Compiler) validateGrouping(
 			continue
 		}
 
-		ug, ok := g.LookupGrouping(gname.Local)
+		ug, ok := u.LookupGrouping(gname.Local)
 		if !ok {
 			return fmt.Errorf(
 				"Unknown grouping (grouping %s) referenced from grouping %s",
